@@ -58,7 +58,14 @@ def space(tier):
     # a slice with the dart streaming-region form of a compute op
     g2 = ST.Grammar([("D", "a", "b"), ("S", "b", "c"), ("O",)], controls=("FOR", "IF"), max_depth=2)
     progs += [p for p in g2.programs(3) if ST.count(p, lambda s: s[0] == "S") >= 1]
-    return [(p, n) for p in progs for n in b["cores"]]
+    cases = [(p, n, None) for p in progs for n in b["cores"]]
+    # two-block functions (cf.br): every split point of every program with <= 4 top-level-visible nodes and >= 2 top-level statements
+    g3 = ST.Grammar(leaves, controls=("FOR", "IF"), max_depth=1)
+    for p in g3.programs(4):
+        if len(p) >= 2 and ST.count(p, lambda s: s[0] in ("D", "C")) >= 1:
+            for k in range(1, len(p)):
+                cases.append((p, 2, k))
+    return cases
 
 
 KIND = {"memref.copy": "D", "linalg.generic": "C", "dart.operation": "C", "test.op": "O", "snax.cluster_sync_op": "B"}
@@ -113,10 +120,10 @@ def allowed(kind, core, n):
 
 
 def evaluate(case, only=None) -> CaseResult:
-    prog, n = case
+    prog, n, split = case
     r = CaseResult()
     em = ST.Emitter(leaf_emit, BUFS)
-    text = em.emit(prog)
+    text = em.emit(prog, split_at=split)
     try:
         base = common.parse(text)
         base.verify()
@@ -154,8 +161,8 @@ def evaluate(case, only=None) -> CaseResult:
                 got, s1 = run(out, "f", args, core)
                 r.transitions += s1
                 r.validated += 1
-                key = f"{prog!r}|{n}|{trips}|{conds}|core{core}"
-                case_j = dict(prog=prog, n=n, vector=[trips, conds], core=core, output_ir=out_text)
+                key = f"{prog!r}|{n}|{split}|{trips}|{conds}|core{core}"
+                case_j = dict(prog=prog, n=n, split=split, vector=[trips, conds], core=core, output_ir=out_text)
                 if got != want:
                     r.violate(key + "|dispatch", case_j, f"core {core} of {n} executes {got} but the original program filtered by the dispatch rule is {want}; trips={trips} conds={conds}; program {prog!r}")
                     continue
@@ -164,11 +171,11 @@ def evaluate(case, only=None) -> CaseResult:
                     r.transitions += s2
                     if gotp != want:
                         r.violate(key + "|pinned", case_j, f"after function-constant-pinning core {core} of {n} executes {gotp}, expected {want}; program {prog!r}")
-    r.obs = (prog, n, tuple(obs))
+    r.obs = (prog, n, split, tuple(obs))
     r.sample = dict(program=repr(prog), nb_cores=n, dispatched_ir=out_text)
     return r
 
 
 def replay(case):
     v = case["vector"]
-    return evaluate((ST.from_json(case["prog"]), case["n"]), only=[list(v[0]), list(v[1])]).violations
+    return evaluate((ST.from_json(case["prog"]), case["n"], case.get("split")), only=[list(v[0]), list(v[1])]).violations
